@@ -425,6 +425,8 @@ class Gen:
             tags.add(K_TERNCOND)   # ppci converts the condition to int: 0x100000000 ? a : b takes b
         chosen = a if c.value else b
         v = self.conv(chosen.value, t, tags)
+        if ptype and not fits(v, ptype):
+            tags.add(K_PROMO)   # ppci gives the whole ?: the sub-int type and reduces the value to it
         if tags & self.avoid:
             return None
         text = "%s ? %s : %s" % (c.emb(PREC["||"], self.r), a.emb(PREC["?:"] + 1, self.r),
